@@ -2717,6 +2717,11 @@ static Type *struct_decl(Token **rest, Token *tok) {
       bits += mem->ty->size * 8;
     }
 
+    // The type of an unnamed bit-field does not affect the alignment
+    // of the struct (System V psABI 3.1.2).
+    if (mem->is_bitfield && !mem->name)
+      continue;
+
     if (!ty->is_packed && ty->align < mem->align)
       ty->align = mem->align;
   }
@@ -2737,6 +2742,14 @@ static Type *union_decl(Token **rest, Token *tok) {
   // are already initialized to zero. We need to compute the
   // alignment and the size though.
   for (Member *mem = ty->members; mem; mem = mem->next) {
+    // An unnamed bit-field occupies its bits only; its type affects
+    // neither the alignment nor the size of the union.
+    if (mem->is_bitfield && !mem->name) {
+      if (ty->size < (mem->bit_width + 7) / 8)
+        ty->size = (mem->bit_width + 7) / 8;
+      continue;
+    }
+
     if (ty->align < mem->align)
       ty->align = mem->align;
     if (ty->size < mem->ty->size)
